@@ -33,7 +33,7 @@ func alphabet(tok bool) []symbol {
 		{"TC", func(e *l1env, dialOK bool) []byte { return packet(ptTunnelCreate, tunnelCreateBody(0, "", false)) }},
 		{"TCc", func(e *l1env, dialOK bool) []byte { return packet(ptTunnelCreate, tunnelCreateBody(0, "tok", true)) }},
 		{"TA", func(e *l1env, dialOK bool) []byte { return packet(ptTunnelAuth, tunnelAuthBody("pc")) }},
-		{"CC", func(e *l1env, dialOK bool) []byte { 
+		{"CC", func(e *l1env, dialOK bool) []byte {
 			if dialOK {
 				return packet(ptChannelCreate, channelCreateBody("127.0.0.1", e.pool[0].port))
 			}
@@ -117,7 +117,7 @@ func streamC01(env *runEnv) {
 		nb = 50000
 	}
 	for i := 0; i < nb; i++ {
-		jobs = append(jobs, c01job{cfg: cfgs[r.Intn(len(cfgs))], tag: "mut", ans: [4]bool{true, true, true, true}, items: nil, syms: []int{-1 - r.Intn(1 << 30)}})
+		jobs = append(jobs, c01job{cfg: cfgs[r.Intn(len(cfgs))], tag: "mut", ans: [4]bool{true, true, true, true}, items: nil, syms: []int{-1 - r.Intn(1<<30)}})
 	}
 	parallel(jobs, func(e *l1env, j c01job) {
 		var items []item
@@ -224,7 +224,6 @@ func mutatedExchange(r *rand.Rand, e *l1env, cfg procCfg) []item {
 	items = append(items, item{eof: true})
 	return items
 }
-
 
 // streamReplay re-runs the case lines of a replay file through the real code.
 func streamReplay(env *runEnv) {
